@@ -37,22 +37,22 @@ Definition valid_gnfa (g : gnfa) : bool :=
   forallb (fun p => is_none (label g p (g_init g)) && is_none (label g (g_final g) p)) (g_states g).
 
 (* ---- ripping a state (the body of the while loop of to_regex) ---- *)
-Definition rip_label (g : gnfa) (q i j : nat) : option rex :=
-  match label g i q, label g q j with
+Definition rip_lab (lab : nat -> nat -> option rex) (q i j : nat) : option rex :=
+  match lab i q, lab q j with
   | Some r1, Some r3 =>
-    let mid := match label g q q with
+    let mid := match lab q q with
                | Some r2 => RCat r1 (RCat (RStar r2) r3)
                | None => RCat r1 r3
                end in
-    Some (match label g i j with Some r4 => RUnion r4 mid | None => mid end)
-  | _, _ => label g i j
+    Some (match lab i j with Some r4 => RUnion r4 mid | None => mid end)
+  | _, _ => lab i j
   end.
 
 Definition remove_nat (q : nat) (l : list nat) : list nat := filter (fun x => negb (Nat.eqb x q)) l.
 
 Definition rip (g : gnfa) (q : nat) : gnfa :=
   let sts := remove_nat q (g_states g) in
-  mkgnfa sts (g_init g) (g_final g) (tabulate sts (rip_label g q)).
+  mkgnfa sts (g_init g) (g_final g) (tabulate sts (rip_lab (label g) q)).
 
 Fixpoint elim_g (g : gnfa) (order : list nat) : gnfa :=
   match order with
@@ -103,6 +103,14 @@ Definition nfa_lab (n : nfa) (p q : nat) : option rex :=
   end.
 
 Definition gnfa_of_nfa (n : nfa) : gnfa := fa_gnfa (n_states n) (n_init n) (n_finals n) (nfa_lab n).
+
+(* ---- the language of a GNFA (declarative): words that decompose along a path from the initial
+   to the final state, each piece in the denotation of the label of the edge taken ---- *)
+Inductive lpath (lab : nat -> nat -> option rex) : nat -> word -> nat -> Prop :=
+| lp_nil p : lpath lab p [] p
+| lp_step p q r s u v : lab p q = Some s -> rden s u -> lpath lab q v r -> lpath lab p (u ++ v) r.
+
+Definition L_gnfa (g : gnfa) : lang := fun w => lpath (label g) (g_init g) w (g_final g).
 
 (* ---- a matcher for the ASTs (Brzozowski derivatives with the trivial simplifications) ---- *)
 Fixpoint nullable (r : rex) : bool :=
